@@ -647,6 +647,11 @@ func ReadVarlena(data []byte) ([]byte, int) {
 	
 	// Check for TOAST pointer (external storage, treat as null)
 	if first == 1 {
+		// va_header 0x01, va_tag, then the tag's payload: an on-disk pointer (VARTAG_ONDISK = 18)
+		// is a 16-byte varatt_external, 18 bytes in all
+		if len(data) >= 18 && data[1] == 18 {
+			return nil, 18
+		}
 		return nil, 1
 	}
 	
